@@ -19,24 +19,32 @@ import numpy as np
 from lib import hw12, sim
 
 RULE = ("X-series: source programs over 2N = 4..12 modes (S2gates in any order incl. zero / missing / repeated squeezers "
-        "on one or several pairs / unequal phases, Sgate+BSgate constructions, Interferometer of 7 unitary classes or "
-        "mirrored BS/MZ/R sequences, split or partial measurements, dependency-respecting and arbitrary reorderings, "
-        "template instances with mutated gates) x device specs (fixture ranges, interval and narrowed ranges, default "
-        "compiler lists, mode limits) x compiler Xstrict|Xunitary|Xcov; TDM: Borealis programs (user-set / left-out loop "
-        "offsets, truncated or mutated circuits, in- and out-of-range arguments, 10..60 time bins) and single-loop "
-        "TD2/TDM programs.  Non-trivial = accepted compile of a program with >= 1 non-zero squeezer or a rejected one "
-        "with >= 3 commands; distinct by (spec parameters, compiler, program).")
+        "on one or several pairs / unequal phases / inverted (.H) commands / reversed pairs / gates between squeezers, Sgate+BSgate "
+        "constructions, Interferometer of 7 unitary classes or mirrored BS/MZ/R sequences incl. inverted gates, halves that differ "
+        "clearly or just beyond numpy.allclose's tolerance, split / partial / reordered measurements with select / dark_counts, "
+        "dependency-respecting and arbitrary reorderings, shared operation objects, a deleted extra mode, template instances with "
+        "mutated gates) x device specs (fixture ranges, interval / narrowed ranges, no ranges (None / {}), default compiler lists, mode "
+        "limits) x compiler Xstrict|Xunitary|Xcov; every case: inputs snapshotted, a third compiled twice.  TDM: Borealis programs "
+        "(user-set / left-out loop offsets, truncated or mutated circuits, in- and out-of-range arguments, arguments through "
+        "tdm.utils.make_phases_compatible, realistic_loss, 10..60 time bins, compiled twice) and single-loop TD2/TDM programs on two "
+        "layouts; compile histories with and without reset_circuit(); helper functions.  Non-trivial = accepted compile of a program "
+        "with >= 1 non-zero squeezer or a rejected one with >= 3 commands; distinct by (spec parameters, compiler, program).")
 ASSUMPTIONS = ["'same photon-number statistics' is checked as: equal (N, M) moments (Xunitary/Xstrict, 1e-6) resp. equal |N|, |M| "
-               "and equal probabilities of sampled Fock patterns (Xcov) of the zero-mean Gaussian state before the measurement",
-               "a ValueError raised by Device.validate_parameters ('has invalid value' / 'not a valid parameter') counts as a "
-               "documented rejection, like CircuitError",
-               "the synthetic X layouts for N != 4 extend the X8_01 fixture (checked equal to the fixture for N = 4 on every run)"]
+               "and equal probabilities of sampled Fock patterns (Xcov) of the zero-mean Gaussian state before the measurement; for "
+               "Borealis: equal |N|, |M| of all pulses of the space-unrolled compiled circuit (loop offsets as gates) and of the source "
+               "with the documented pi shifts of loops 1 and 2 applied",
+               "a ValueError raised by Device.validate_parameters ('has invalid value' / 'not a valid parameter') or by the Blackbird "
+               "writer for an inverted gate it cannot express counts as a documented rejection, like CircuitError",
+               "the synthetic X layouts for N != 4 extend the X8_01 fixture (checked equal to the fixture for N = 4 on every run)",
+               "post-selection / dark counts of the Fock measurements belong to the experiment: an accepted compile must keep them"]
 TRUSTED = ["modelled: Range/Ranges.__contains__, Device.gate_parameters/validate_parameters, Compiler.init_circuit, "
            "Program/TDMProgram.assert_modes, rectangular_MZ/rectangular_symmetric mode pairs + Interferometer._decompose skeleton, "
-           "xunitary.list_duplicates + S2-merge loop, Borealis.compile offset insertion, Borealis.update_params arithmetic",
+           "xunitary.list_duplicates + S2-merge loop (incl. inverse flag), Xunitary's orthogonality / block / symmetry verdict and Xcov's "
+           "adjacency-block verdict with numpy.allclose's tolerances, thewalrus expand (index logic), Xcov squeezer bookkeeping, "
+           "Borealis.compile offset insertion, Borealis.update_params arithmetic",
            "not modelled (exercised by the oracle only): Blackbird match_template / NetworkX isomorphism, Clements angles, Takagi, "
-           "GaussianUnitary symplectic extraction; thewalrus density_matrix_element for Fock probabilities; "
-           "reference states from lib/sim.py (own symplectic matrices)"]
+           "GaussianUnitary symplectic extraction, thewalrus Amat, Borealis.add_loss, tdm.utils helpers, Device.create_program; "
+           "thewalrus density_matrix_element for Fock probabilities; reference states from lib/sim.py (own symplectic matrices)"]
 
 logging.disable(logging.WARNING)
 PI = math.pi
@@ -58,15 +66,29 @@ def dec_U(u):
 
 
 def build_prog(sf, desc):
+    """desc ops: cls, regs, pars | U, optional dagger / select / dark (MeasureFock).  With desc['share'] equal operations
+    are ONE shared instance (as users who write `s = S2gate(1); s | ...; s | ...` produce them)."""
     import strawberryfields.ops as ops
     p = sf.Program(desc["n"])
+    cache = {}
     with p.context as q:
         for o in desc["ops"]:
+            if o["cls"] == "Del":
+                ops.Del | tuple(q[r] for r in o["regs"])
+                continue
             cls = getattr(ops, o["cls"])
-            if o["cls"] == "Interferometer":
-                op = cls(dec_U(o["U"]))
-            else:
-                op = cls(*o.get("pars", []))
+            key = repr((o["cls"], o.get("pars"), o.get("U"), o.get("dagger"), o.get("select"), o.get("dark")))
+            op = cache.get(key) if desc.get("share") else None
+            if op is None:
+                if o["cls"] == "Interferometer":
+                    op = cls(dec_U(o["U"]))
+                elif o["cls"] == "MeasureFock":
+                    op = cls(select=o.get("select"), dark_counts=o.get("dark"))
+                else:
+                    op = cls(*o.get("pars", []))
+                if o.get("dagger"):
+                    op = op.H
+                cache[key] = op
             op | tuple(q[r] for r in o["regs"])
     return p
 
@@ -76,9 +98,10 @@ def desc_from_skeleton(n, skel):
 
 
 def ref_state(n, oplist):
-    """independent Gaussian reference: oplist of (cls, modes, pars|U)"""
+    """independent Gaussian reference: oplist of (cls, modes, pars|U[, dagger])"""
     st = sim.RefState(n)
-    for cls, modes, pars in oplist:
+    for item in oplist:
+        cls, modes, pars = item[0], item[1], item[2]
         if cls.startswith("Measure"):
             continue
         if cls == "Interferometer":
@@ -86,15 +109,17 @@ def ref_state(n, oplist):
             S = np.block([[U.real, -U.imag], [U.imag, U.real]])
         else:
             S, _ = sim.gate_symplectic(cls, [float(x) for x in pars])
+        if len(item) > 3 and item[3]:
+            S = np.linalg.inv(S)
         st.apply_SYd(list(modes), S)
     return st
 
 
 def desc_oplist(desc):
-    return [(o["cls"], o["regs"], dec_U(o["U"]) if o["cls"] == "Interferometer" else o.get("pars", [])) for o in desc["ops"]]
+    return [(o["cls"] if o["cls"] != "Del" else "MeasureDel", o["regs"], dec_U(o["U"]) if o["cls"] == "Interferometer" else o.get("pars", []), bool(o.get("dagger")))
+            for o in desc["ops"]]
 
 
-# ====================================================================== generators (X series)
 def dy(rng, lo, hi, den=8):
     return rng.randint(int(lo * den), int(hi * den)) / den
 
@@ -200,8 +225,9 @@ def gen_x_source(rng, nprng, N, comp, amps):
         if ik == "interf":
             U2 = U
         else:  # different unitary on the idler half: unrelated, or equal moduli with phases before / after
-            v = rng.choice(["haar", "phases-before", "phases-after"])
-            D = np.diag(np.exp(1j * nprng.uniform(0.3, 2.8, N)))
+            v = rng.choice(["haar", "phases-before", "phases-after", "phases-before", "phases-after"])
+            # clearly different, or a little beyond numpy.allclose's tolerance (rtol 1e-5)
+            D = np.diag(np.exp(1j * (nprng.uniform(0.3, 2.8, N) if rng.random() < 0.5 else rng.choice([3e-5, 1e-4, 1e-3]) * np.ones(N))))
             U2 = hw12.rand_unitary(nprng, N, "haar") if v == "haar" else (U @ D if v == "phases-before" else D @ U)
         ops_.append(dict(cls="Interferometer", regs=list(range(N)), U=enc_U(U)))
         ops_.append(dict(cls="Interferometer", regs=list(range(N, n)), U=enc_U(U2)))
@@ -213,19 +239,56 @@ def gen_x_source(rng, nprng, N, comp, amps):
     elif ik == "mix":
         ops_.append(dict(cls="BSgate", regs=[0, N], pars=[0.5, 0.0]))
     kind.append(ik)
+    # ---- inverse flags (S2gate(r).H = S2gate(-r), ...): on single squeezers, inside repeated groups, on the interferometer
+    if rng.random() < 0.22:
+        cand = [i for i, o in enumerate(ops_) if o["cls"] in ("S2gate", "Rgate", "BSgate", "MZgate", "Sgate")]
+        if cand:
+            i = rng.choice(cand)
+            ops_[i]["dagger"] = True
+            # keep the two halves equal: the mirrored partner of an interferometer gate is inverted as well
+            if ops_[i]["cls"] != "S2gate" and ops_[i]["cls"] != "Sgate":
+                for j, o in enumerate(ops_):
+                    if j != i and o["cls"] == ops_[i]["cls"] and o.get("pars") == ops_[i].get("pars") and o.get("U") == ops_[i].get("U") \
+                            and sorted(o["regs"]) in ([r + N for r in sorted(ops_[i]["regs"])], [r - N for r in sorted(ops_[i]["regs"])]):
+                        o["dagger"] = True
+                        break
+            kind.append("dagger:" + ops_[i]["cls"])
+    if rng.random() < 0.03:
+        cand = [o for o in ops_ if o["cls"] == "S2gate"]
+        if cand:
+            o = rng.choice(cand)
+            o["regs"] = o["regs"][::-1]
+            kind.append("revpair")
     # ---- measurement
     mk = rng.choice(["all", "all", "all", "split", "partial"])
     if mk == "partial" and rng.random() < 0.7:
         mk = "all"
+    order_ = list(range(n))
+    if rng.random() < 0.35:
+        rng.shuffle(order_)
+        kind.append("meas-order")
+    opt = rng.choice([None] * 8 + ["select", "select-part", "dark", "dark-part"])
+    sel = {m: rng.randint(0, 2) for m in range(n)}
+    dk = {m: rng.choice([0.0, 0.125]) for m in range(n)}
+
+    def M(regs, first=True):
+        d = dict(cls="MeasureFock", regs=regs, pars=[])
+        if opt == "select" or (opt == "select-part" and first):
+            d["select"] = [sel[m] for m in regs]
+        if opt == "dark" or (opt == "dark-part" and first):
+            d["dark"] = [dk[m] for m in regs]
+        return d
     if mk == "all":
-        ops_.append(dict(cls="MeasureFock", regs=list(range(n)), pars=[]))
+        ops_.append(M(order_))
     elif mk == "split":
         c = rng.randint(1, n - 1)
-        ops_.append(dict(cls="MeasureFock", regs=list(range(c)), pars=[]))
-        ops_.append(dict(cls="MeasureFock", regs=list(range(c, n)), pars=[]))
+        ops_.append(M(order_[:c]))
+        ops_.append(M(order_[c:], first=False))
     else:
-        ops_.append(dict(cls="MeasureFock", regs=list(range(n - 1)), pars=[]))
+        ops_.append(M(order_[:n - 1]))
     kind.append("meas:" + mk)
+    if opt:
+        kind.append("meas-opt:" + opt)
     # ---- order
     order = rng.choice(["natural", "natural", "linext", "swap"])
     if order == "linext":
@@ -234,13 +297,21 @@ def gen_x_source(rng, nprng, N, comp, amps):
         i = rng.randrange(len(ops_) - 2)
         ops_[i], ops_[i + 1] = ops_[i + 1], ops_[i]
     kind.append("order:" + order)
-    return dict(n=n, ops=ops_), kind
+    desc = dict(n=n, ops=ops_)
+    if rng.random() < 0.4:
+        desc["share"] = True
+        kind.append("shared-ops")
+    if rng.random() < 0.03:      # a register with a hole: one more mode, deleted right away
+        desc["n"] = n + 1
+        desc["ops"] = [dict(cls="Del", regs=[n], pars=[])] + desc["ops"]
+        kind.append("del")
+    return desc, kind
 
 
 def gen_strict_source(rng, N, spec, amps):
     """an instance of the layout template, possibly mutated"""
     n = 2 * N
-    gp = spec["gate_parameters"]
+    gp = hw12.x_gate_parameters(N, [0], [0])      # the template parameter names
     vals = {}
     for name, entries in gp.items():
         if name.startswith("squeezing"):
@@ -288,6 +359,8 @@ def gen_x_case(rng, nprng, thorough=False):
     complist = rng.choice([[], [], [comp], ["Xcov"], ["Xunitary", "Xcov"]])
     modes = 2 * N if rng.random() < 0.9 else rng.choice([2 * N + 2, 2 * N - 2])
     case = dict(kind="x", N=N, comp=comp, sq=sqk, ph=phk, complist=complist, modes=modes)
+    if rng.random() < 0.12:        # a device with a layout but without allowed parameter values
+        case["gp"] = rng.choice(["none", "empty"])
     spec = case_spec(case)
     amps = SQ_VARIANTS[sqk][1]
     if comp == "Xstrict":
@@ -300,12 +373,14 @@ def gen_x_case(rng, nprng, thorough=False):
 
 
 def case_spec(case):
+    if case.get("gp") in ("none", "empty"):
+        return hw12.x_spec(case["N"], None, None if case["gp"] == "none" else {}, compiler=case["complist"], modes=case["modes"])
     return hw12.x_spec(case["N"], SQ_VARIANTS[case["sq"]][0], PH_VARIANTS[case["ph"]], compiler=case["complist"],
                        modes=case["modes"])
 
 
 # ====================================================================== oracle (X series)
-DOCUMENTED_VALUE_ERRORS = ("has invalid value", "not a valid parameter for this device")
+DOCUMENTED_VALUE_ERRORS = ("has invalid value", "not a valid parameter for this device", "cannot be represented in Blackbird")
 
 
 def classify_exception(e, CircuitError):
@@ -316,11 +391,51 @@ def classify_exception(e, CircuitError):
     return None
 
 
+def prog_snapshot(prog):
+    """content of a program, deep enough to see in-place edits of shared operations / commands / options"""
+    out = []
+    for c in prog.circuit:
+        ps = []
+        for x in c.op.p:
+            ps.append(repr(np.asarray(x).tolist()) if isinstance(x, np.ndarray) else repr(x))
+        out.append((type(c.op).__name__, tuple(r.ind for r in c.reg), tuple(ps), bool(getattr(c.op, "dagger", False)),
+                    repr(getattr(c.op, "select", None)), repr(getattr(c.op, "dark_counts", None)), id(c.op)))
+    return out, [r.ind for r in prog.register], (repr(prog.tdm_params) if hasattr(prog, "tdm_params") else None)
+
+
+def x_outcome(sf, prog, dev, comp):
+    """('err', class) or ('ok', skeleton with rounded parameters, options of the final measurement, compiled program)"""
+    from strawberryfields.program_utils import CircuitError
+    reset_compilers(sf)
+    try:
+        compiled = prog.compile(device=dev, compiler=comp)
+    except Exception as e:  # noqa: BLE001
+        return ("err", classify_exception(e, CircuitError) or f"{type(e).__name__}: {str(e)[:120]}", None, e)
+    finally:
+        reset_compilers(sf)
+    sk = hw12.circuit_skeleton(compiled)
+    key = [(c, tuple(m), tuple(round(x, 9) if isinstance(x, float) else x for x in p)) for c, m, p in sk]
+    last = compiled.circuit[-1].op
+    return ("ok", key, (repr(getattr(last, "select", None)), repr(getattr(last, "dark_counts", None))), compiled)
+
+
 def x_oracle(ctx, sf, case, count=True):
+    try:
+        _x_oracle(ctx, sf, case, count)
+    except Exception as e:  # noqa: BLE001   (an exception of the code under test inside the oracle is a finding with an input)
+        import traceback
+        ctx.fail(f"x-oracle-crash:{type(e).__name__}", f"{case['comp']}: {type(e).__name__} {str(e)[:150]} at {traceback.format_exc().splitlines()[-3].strip()[:120]}",
+                 dict(case))
+
+
+def _x_oracle(ctx, sf, case, count=True):
     from strawberryfields.program_utils import CircuitError, validate_gate_parameters
+    import strawberryfields.ops as ops
     N, comp, desc = case["N"], case["comp"], case["desc"]
     n = 2 * N
+    nn = desc["n"]
     spec = case_spec(case)
+    spec0 = copy.deepcopy(spec)
     rp = {k: v for k, v in case.items()}
     ctx.oracle_cases += 1
     try:
@@ -329,24 +444,31 @@ def x_oracle(ctx, sf, case, count=True):
     except Exception as e:  # noqa: BLE001  (generator made something the front end refuses: not a compile matter)
         ctx.tally(f"x:unbuildable:{type(e).__name__}")
         return
-    reset_compilers(sf)
+    snap0 = prog_snapshot(prog)
     nz = any(o["cls"] in ("S2gate", "Sgate") and abs(o["pars"][0]) > 0 for o in desc["ops"])
-    try:
-        compiled = prog.compile(device=dev, compiler=comp)
-    except Exception as e:  # noqa: BLE001
-        cl = classify_exception(e, CircuitError)
+    res = x_outcome(sf, prog, dev, comp)
+    # ---- inputs untouched; same call again gives the same outcome (objects reused: program, device, shared operations)
+    if prog_snapshot(prog) != snap0:
+        ctx.fail(f"x-input-mutated:{comp}", f"{comp}: compiling changed the source program in place", rp)
+    if spec != spec0 or dev._spec != spec0:
+        ctx.fail(f"x-spec-mutated:{comp}", f"{comp}: compiling changed the device specification in place", rp)
+    if case.get("repeat", True) and (len(desc["ops"]) % 3 == 0 or not count):
+        res2 = x_outcome(sf, prog, dev, comp)
+        if res[:3] != res2[:3]:
+            ctx.fail(f"x-not-repeatable:{comp}", f"{comp}: compiling the same program for the same device twice gives {res[0]}/{res[1] if res[0] == 'err' else ''} "
+                     f"then {res2[0]}/{res2[1] if res2[0] == 'err' else ''}", rp)
+    if res[0] == "err":
         if count:
             ctx.count(f"x:{comp}:rejected", dict(c=case), len(desc["ops"]) >= 3)
             for k in case.get("kinds", []):
                 ctx.tally(f"x:kind:{k}")
-        if cl is None:
-            ctx.fail(f"x-compile-raises:{type(e).__name__}:{comp}",
-                     f"{comp} on {n} modes raised {type(e).__name__}: {str(e)[:120]} (neither a circuit error nor a compiled circuit)", rp)
+        if res[1] not in ("CircuitError", "ValueError(range)"):
+            ctx.fail(f"x-compile-raises:{type(res[3]).__name__}:{comp}",
+                     f"{comp} on {n} modes raised {res[1]} (neither a circuit error nor a compiled circuit)", rp)
         else:
-            ctx.tally(f"x:{comp}:{cl}")
+            ctx.tally(f"x:{comp}:{res[1]}")
         return
-    finally:
-        reset_compilers(sf)
+    compiled = res[3]
     if count:
         ctx.count(f"x:{comp}:accepted", dict(c=case), nz, sample=dict(N=N, comp=comp, kinds=case.get("kinds"), nops=len(desc["ops"])))
         for k in case.get("kinds", []):
@@ -358,15 +480,27 @@ def x_oracle(ctx, sf, case, count=True):
         sig = "x-out-of-range" if "outside" in reason else "x-nonconforming"
         ctx.fail(f"{sig}:{comp}", f"{comp} accepted a program on {n} modes but the compiled circuit does not fit the device: {reason}", rp)
         return
-    if n > case["modes"]:
-        ctx.fail(f"x-too-many-modes:{comp}", f"{n}-mode program accepted for a {case['modes']}-mode device", rp)
+    if nn > case["modes"]:
+        ctx.fail(f"x-too-many-modes:{comp}", f"{nn}-mode program accepted for a {case['modes']}-mode device", rp)
     try:
-        validate_gate_parameters(compiled, dev)
+        validate_gate_parameters(compiled, dev, validate_values=bool(spec["gate_parameters"]))
     except Exception as e:  # noqa: BLE001
         ctx.fail(f"x-revalidate:{comp}", f"validate_gate_parameters rejects the circuit {comp} returned: {type(e).__name__} {str(e)[:100]}", rp)
+    # measurement options (post-selection, dark counts) belong to the experiment
+    want_sel, want_dark = {}, {}
+    for o in desc["ops"]:
+        if o["cls"] == "MeasureFock":
+            want_sel.update(zip(o["regs"], o.get("select") or []))
+            want_dark.update(zip(o["regs"], o.get("dark") or []))
+    last = compiled.circuit[-1]
+    got_sel = dict(zip([r.ind for r in last.reg], last.op.select or []))
+    got_dark = dict(zip([r.ind for r in last.reg], last.op.dark_counts or []))
+    if got_sel != want_sel or {k: v for k, v in got_dark.items() if v} != {k: v for k, v in want_dark.items() if v}:
+        ctx.fail(f"x-measurement-options:{comp}", f"{comp}: source measures with select={want_sel} dark_counts={want_dark}, "
+                 f"compiled circuit with select={got_sel} dark_counts={got_dark}", rp)
     # (c) same photon statistics
-    src = ref_state(n, desc_oplist(desc))
-    out = ref_state(n, [(c, m, p) for c, m, p in sk])
+    src = ref_state(nn, desc_oplist(desc))
+    out = ref_state(nn, [(c, m, p) for c, m, p in sk])
     _, Ns, Ms = src.alpha_N_M()
     _, Nc, Mc = out.alpha_N_M()
     scale = max(1.0, float(np.max(np.abs(Ns))), float(np.max(np.abs(Ms))))
@@ -379,7 +513,7 @@ def x_oracle(ctx, sf, case, count=True):
         bad = d > 1e-6 * scale
         if not bad and scale < 6:
             import random as _r
-            pats = hw12.rand_patterns(_r.Random(len(desc["ops"]) * 7919 + N), n, 5 if n <= 8 else 3, max_total=4 if n <= 8 else 2)
+            pats = hw12.rand_patterns(_r.Random(len(desc["ops"]) * 7919 + N), nn, 5 if nn <= 8 else 3, max_total=4 if nn <= 8 else 2)
             ps, pc = hw12.fock_probs(src.V, pats, 2.0), hw12.fock_probs(out.V, pats, 2.0)
             d = float(np.max(np.abs(ps - pc)))
             bad = d > 1e-7
@@ -417,6 +551,8 @@ def build_borealis(sf, case):
     n, Nc = get_mode_indices(DELAYS)
     prog = sf.TDMProgram(Nc)
     ga = case["args"]
+    if case.get("via_utils"):
+        ga = utils_args(sf, case)
     mut = case.get("mut")
     with prog.context(*ga) as (p, q):
         if mut == "first-rgate":
@@ -444,8 +580,18 @@ def build_borealis(sf, case):
     return prog
 
 
+def utils_args(sf, case):
+    """the gate arguments after tdm.utils.make_phases_compatible (dictionary form and back)"""
+    from strawberryfields.tdm import utils as tu
+    dev = types.SimpleNamespace(certificate={"loop_phases": list(case["loop_phases"])})
+    a = case["args"]
+    d = {"Sgate": list(a[0]), "loops": {i: {"Rgate": list(a[1 + 2 * i]), "BSgate": list(a[2 + 2 * i])} for i in range(3)}}
+    out = tu.make_phases_compatible(d, dev)
+    return [out["Sgate"]] + [out["loops"][i][g] for i in range(3) for g in ("Rgate", "BSgate")]
+
+
 def gen_borealis_case(rng):
-    L = rng.choice([10, 20, 37, 60])
+    L = rng.choice([10, 20, 37, 46, 50, 60])
     lp = [rng.choice([0.1, -0.1, 3.0, 0.0, 1.0, -2.5, PI / 7]) for _ in range(3)]
     inrange = rng.random() < 0.88
 
@@ -463,7 +609,8 @@ def gen_borealis_case(rng):
         k = rng.randrange(3)
         offsets[k] = lp[k] if rng.random() < 0.7 else 0.25
     mut = rng.choice([None] * 10 + ["no-measure", "first-rgate", "bs-swapped", "bs-phase", "extra-rgate", "homodyne"])
-    return dict(kind="borealis", L=L, loop_phases=lp, args=args, offsets=offsets, mut=mut)
+    return dict(kind="borealis", L=L, loop_phases=lp, args=args, offsets=offsets, mut=mut,
+                via_utils=(offsets == [None, None, None] and rng.random() < 0.3), loss=rng.random() < 0.25)
 
 
 def wrap_to_pi(x):
@@ -472,20 +619,47 @@ def wrap_to_pi(x):
 
 
 def borealis_oracle(ctx, sf, fx, case, count=True):
+    try:
+        _borealis_oracle(ctx, sf, fx, case, count)
+    except Exception as e:  # noqa: BLE001
+        ctx.fail(f"tdm-oracle-crash:{type(e).__name__}", f"borealis: {type(e).__name__} {str(e)[:150]}", dict(case))
+
+
+def _borealis_oracle(ctx, sf, fx, case, count=True):
     from strawberryfields.program_utils import CircuitError
     from strawberryfields.parameters import par_evaluate
     dev, spec = borealis_device(sf, fx, case["loop_phases"])
     rp = dict(case)
+    eff_args = case["args"]
+    if case.get("via_utils"):
+        a0 = copy.deepcopy(case["args"])
+        eff_args = utils_args(sf, case)
+        if case["args"] != a0:
+            ctx.fail("tdm-utils-input-mutated", "make_phases_compatible changed its input in place", rp)
+        for i in range(3):
+            d_ = np.array(eff_args[1 + 2 * i], dtype=float) - np.array(case["args"][1 + 2 * i], dtype=float)
+            off = np.abs(wrap_to_pi(2 * d_)) / 2
+            if (i == 0 and np.max(np.abs(d_)) > 0) or np.max(off) > 1e-9 or eff_args[2 + 2 * i] != case["args"][2 + 2 * i]:
+                ctx.fail("tdm-utils-phases:borealis", f"make_phases_compatible: loop {i} phases are not the input up to added pi (loop 0: unchanged)", rp)
+                return
     ctx.oracle_cases += 1
     try:
         prog = build_borealis(sf, case)
     except Exception as e:  # noqa: BLE001
         ctx.tally(f"tdm:unbuildable:{type(e).__name__}")
         return
+    snap0, cert0, spec0 = prog_snapshot(prog), copy.deepcopy(dev.certificate), copy.deepcopy(spec)
+
+    def inputs_untouched():
+        if prog_snapshot(prog) != snap0:
+            ctx.fail("tdm-input-mutated:borealis", "Borealis: compiling changed the source program (circuit or gate arguments) in place", rp)
+        if dev.certificate != cert0 or dev._spec != spec0:
+            ctx.fail("tdm-spec-mutated:borealis", "Borealis: compiling changed the device specification / certificate in place", rp)
     reset_compilers(sf)
     try:
         compiled = prog.compile(device=dev)
     except Exception as e:  # noqa: BLE001
+        inputs_untouched()
         cl = classify_exception(e, CircuitError)
         if count:
             ctx.count("tdm:borealis:rejected", dict(c=case), True)
@@ -498,9 +672,21 @@ def borealis_oracle(ctx, sf, fx, case, count=True):
         return
     finally:
         reset_compilers(sf)
+    inputs_untouched()
     if count:
         ctx.count("tdm:borealis:accepted", dict(c=case), True, sample=dict(L=case["L"], offsets=case["offsets"], mut=case["mut"]))
         ctx.tally(f"tdm:mut:{case['mut']}")
+    # same program, same device, compiled again (no reset in between: the class keeps the layout): same result
+    try:
+        again = prog.compile(device=dev)
+        same = [list(map(float, a)) for a in again.tdm_params] == [list(map(float, a)) for a in compiled.tdm_params] and \
+            [(type(c.op).__name__, str(c.op.p)) for c in again.circuit] == [(type(c.op).__name__, str(c.op.p)) for c in compiled.circuit]
+        if not same:
+            ctx.fail("tdm-not-repeatable:borealis", "Borealis: compiling the same program twice gives different gate arguments", rp)
+    except Exception as e:  # noqa: BLE001
+        ctx.fail("tdm-not-repeatable:borealis", f"Borealis: second compile of an accepted program raised {type(e).__name__}: {str(e)[:100]}", rp)
+    finally:
+        reset_compilers(sf)
     # (a) layout, gate for gate and mode for mode
     got = [(type(c.op).__name__, sorted(r.ind for r in c.reg)) for c in compiled.circuit]
     if got != [(c, sorted(m)) for c, m in BOREALIS_SKEL]:
@@ -529,7 +715,7 @@ def borealis_oracle(ctx, sf, fx, case, count=True):
     # (c) phase compensation: compensated = source + own accumulated offset - previous one (mod pi; mod 2 pi if no shift needed)
     prev = np.zeros(L)
     for i in range(3):
-        srcphi = np.array(case["args"][1 + 2 * i], dtype=float)
+        srcphi = np.array(eff_args[1 + 2 * i], dtype=float)
         newphi = np.array(compiled.tdm_params[1 + 2 * i], dtype=float)
         if case["offsets"][i] is not None:
             if np.max(np.abs(newphi - srcphi)) > 1e-12:
@@ -547,7 +733,123 @@ def borealis_oracle(ctx, sf, fx, case, count=True):
                      f"loop {i}, time bin {j}: compensated phase {newphi[j]} is not source + offsets = {target[j]} modulo "
                      f"{'2 pi' if inr[j] else 'pi'}", rp)
             return
+        if case.get("via_utils") and i > 0 and not inr.all() and np.min(PI / 2 - np.abs(w[~inr])) < -1e-9:
+            j = int(np.argmax(np.abs(w)))
+            ctx.fail("tdm-utils-phases-not-compatible:borealis", f"after make_phases_compatible, loop {i} time bin {j} still needs a pi shift "
+                     f"(compensated phase {w[j]})", rp)
+            return
         prev = corr
+    # (e) realistic loss: the same circuit plus the certificate's losses at the documented places
+    if case.get("loss"):
+        borealis_loss_check(ctx, sf, fx, case, compiled, rp)
+    # (d) same photon statistics (last: unrolling changes the compiled program object): the compiled circuit (loop offsets as gates, compensated phases) prepares the state of the
+    #     source circuit with the documented pi shifts (loops 1, 2) applied, up to local phases — all pulses, space-unrolled
+    if case["mut"] is None and L >= 44:
+        shifted = copy.deepcopy(eff_args)
+        prev = np.zeros(L)
+        for i in range(3):
+            if case["offsets"][i] is not None:
+                continue
+            corr = np.array([case["loop_phases"][i] * (j // DELAYS[i]) for j in range(L)])
+            target = np.array(eff_args[1 + 2 * i], dtype=float) + corr - prev
+            k = np.round((np.array(compiled.tdm_params[1 + 2 * i], dtype=float) - target) / PI).astype(int)
+            if i > 0:
+                shifted[1 + 2 * i] = (np.array(eff_args[1 + 2 * i], dtype=float) + PI * (k % 2)).tolist()
+            prev = corr
+        Nc, Mc = tdm_final_moments(compiled)
+        Ne, Me = tdm_final_moments(build_borealis(sf, dict(case, args=shifted, via_utils=False)))
+        d = max(float(np.max(np.abs(np.abs(Nc) - np.abs(Ne)))), float(np.max(np.abs(np.abs(Mc) - np.abs(Me)))))
+        ctx.tally("tdm:borealis:statistics-compared")
+        if d > 1e-7:
+            ctx.fail("tdm-statistics-differ:borealis", f"Borealis: the compiled circuit (loop offsets {case['loop_phases']}, compensated phases) does not "
+                     f"prepare the source's state up to the documented pi shifts and local phases (moment distance {d:.3g})", rp)
+
+
+def tdm_final_moments(prog):
+    """(N, M) moments of all pulses of a TDM program (space-unrolled, measurements dropped), own symplectics"""
+    from strawberryfields.parameters import par_evaluate
+    prog.space_unroll()
+    n = prog.num_subsystems
+    V = np.eye(2 * n)
+    for c in prog.circuit:
+        name = type(c.op).__name__
+        if name.startswith("Measure"):
+            continue
+        S, _ = sim.gate_symplectic(name, [float(par_evaluate(x)) for x in c.op.p])
+        if getattr(c.op, "dagger", False):
+            S = np.linalg.inv(S)
+        m = [r.ind for r in c.reg]
+        ix = m + [x + n for x in m]
+        V[ix, :] = S @ V[ix, :]
+        V[:, ix] = V[:, ix] @ S.T
+    A, B, C = V[:n, :n], V[:n, n:], V[n:, n:]
+    return 0.25 * (A + C + 1j * (B - B.T) - 2 * np.eye(n)), 0.25 * (A - C + 1j * (B + B.T))
+
+
+def borealis_loss_check(ctx, sf, fx, case, compiled, rp):
+    from strawberryfields.parameters import par_evaluate
+    import strawberryfields.ops as ops
+    L = case["L"]
+    dev, spec = borealis_device(sf, fx, case["loop_phases"])
+    rel = [0.9 + 0.005 * k for k in range(16)]
+    dev._certificate["relative_channel_efficiencies"] = list(rel)
+    cert0 = copy.deepcopy(dev.certificate)
+    prog = build_borealis(sf, case)
+    reset_compilers(sf)
+    try:
+        lossy = prog.compile(device=dev, realistic_loss=True)
+    except Exception as e:  # noqa: BLE001
+        ctx.fail("tdm-loss:borealis", f"realistic_loss=True: compile of a program accepted without it raised {type(e).__name__}: {str(e)[:100]}", rp)
+        return
+    finally:
+        reset_compilers(sf)
+    ctx.tally("tdm:borealis:loss-compared")
+    if dev.certificate != cert0:
+        ctx.fail("tdm-spec-mutated:borealis", "realistic_loss=True changed the device certificate in place", rp)
+    kept = [c for c in lossy.circuit if not isinstance(c.op, ops.LossChannel)]
+    a = [(type(c.op).__name__, [r.ind for r in c.reg], str(c.op.p)) for c in kept]
+    b = [(type(c.op).__name__, [r.ind for r in c.reg], str(c.op.p)) for c in compiled.circuit]
+    if a != b or [list(map(float, x)) for x in lossy.tdm_params[:7]] != [list(map(float, x)) for x in compiled.tdm_params[:7]]:
+        ctx.fail("tdm-loss:borealis", "realistic_loss=True changes the circuit beyond adding loss channels", rp)
+        return
+    # documented places: loss before MeasureFock (relative channel efficiencies, per time bin), after Sgate (common efficiency),
+    # after each BSgate on its second mode (loop efficiency of that loop)
+    want, loop = [], 0
+    for c in compiled.circuit:
+        name, regs = type(c.op).__name__, [r.ind for r in c.reg]
+        if name == "MeasureFock":
+            want.append(("param", regs))
+        if name == "Sgate":
+            want.append((cert0["common_efficiency"], regs))
+        if name == "BSgate":
+            want.append((cert0["loop_efficiencies"][loop], regs[1:2]))
+            loop += 1
+    got = []
+    for c in lossy.circuit:
+        if isinstance(c.op, ops.LossChannel):
+            v = c.op.p[0]
+            try:
+                got.append((float(par_evaluate(v)), [r.ind for r in c.reg]))
+            except Exception:  # noqa: BLE001
+                got.append(("param", [r.ind for r in c.reg]))
+    order_l = [x for x in lossy.circuit]
+    # relative order: each loss channel directly before the measurement / directly after its gate
+    pos_ok = True
+    for i, c in enumerate(order_l):
+        if isinstance(c.op, ops.LossChannel):
+            nxt = type(order_l[i + 1].op).__name__ if i + 1 < len(order_l) else None
+            prv = type(order_l[i - 1].op).__name__ if i > 0 else None
+            if not (nxt == "MeasureFock" or prv in ("Sgate", "BSgate")):
+                pos_ok = False
+    # order of `want` follows the circuit; the loss before the measurement precedes it, the others follow their gate
+    wl = [w for w in want if w[0] != "param"] + [w for w in want if w[0] == "param"]
+    gl = [g for g in got if g[0] != "param"] + [g for g in got if g[0] == "param"]
+    if wl != gl or not pos_ok:
+        ctx.fail("tdm-loss:borealis", f"realistic_loss=True: loss channels {got} instead of the certificate's {want}", rp)
+        return
+    tiled = (rel * ((L + 15) // 16))[:L]
+    if [float(x) for x in lossy.tdm_params[-1]] != tiled:
+        ctx.fail("tdm-loss:borealis", "realistic_loss=True: per-time-bin detection efficiencies are not the certificate's relative channel efficiencies, tiled", rp)
 
 
 def gen_tdm1_case(rng):
@@ -562,10 +864,10 @@ def gen_tdm1_case(rng):
         alpha[rng.randrange(2 * c)] = 27
     if mut == "r-range":
         phi[rng.randrange(2 * c)] = rng.choice([3.5, -0.1])
-    return dict(kind="tdm1", target=target, c=c, alpha=alpha, phi=phi, theta=theta, mut=mut)
+    return dict(kind="tdm1", target=target, c=c, alpha=alpha, phi=phi, theta=theta, mut=mut, sqfix=rng.choice([0.5643, 0.5643, 0.3]))
 
 
-def tdm1_layout(target, tm=4):
+def tdm1_layout(target, tm=4, sqfix=0.5643):
     import inspect
     return inspect.cleandoc(f"""
         name template_tdm
@@ -580,7 +882,7 @@ def tdm1_layout(target, tm=4):
         float array p3[1, {tm}] =
             {{m}}
 
-        Sgate(0.5643, 0) | 1
+        Sgate({sqfix}, 0) | 1
         BSgate({{bs}}, 0) | (1, 0)
         Rgate({{r}}) | 1
         MeasureHomodyne({{m}}) | 0
@@ -590,26 +892,42 @@ def tdm1_layout(target, tm=4):
 TDM1_GP = {"bs": [0, [0, 6.283185307179586]], "r": [0, [0, 3.141592653589793], 3.141592653589793], "m": [0, [0, 6.283185307179586]]}
 
 
-def tdm1_oracle(ctx, sf, case, count=True):
+def build_tdm1(sf, case):
     import strawberryfields.ops as ops
-    from strawberryfields.program_utils import CircuitError
-    from strawberryfields.parameters import par_evaluate
     mut, target = case["mut"], case["target"]
+    sqfix = case.get("sqfix", 0.5643)
     modes = {"concurrent": 2 if mut != "concurrent" else 3, "spatial": 1, "temporal_max": 100 if mut != "temporal" else 1}
-    spec = {"target": target, "layout": tdm1_layout(target), "modes": modes, "compiler": [target], "gate_parameters": TDM1_GP}
+    spec = {"target": target, "layout": tdm1_layout(target, sqfix=sqfix), "modes": modes, "compiler": [target], "gate_parameters": TDM1_GP}
     dev = sf.Device(spec)
     prog = sf.TDMProgram(N=2)
     with prog.context(case["alpha"], case["phi"], case["theta"]) as (p, q):
         if mut == "dgate":
-            ops.Dgate(0.5643) | q[1]
+            ops.Dgate(sqfix) | q[1]
         else:
-            ops.Sgate(2.0 if mut == "sq-value" else 0.5643, 0.4 if mut == "sq-phase" else 0) | q[1]
+            ops.Sgate(2.0 if mut == "sq-value" else sqfix, 0.4 if mut == "sq-phase" else 0) | q[1]
         ops.BSgate(p[0]) | ((q[0], q[1]) if mut == "bs-swapped" else (q[1], q[0]))
         ops.Rgate(p[1]) | q[1]
         if mut == "fock":
             ops.MeasureFock() | q[0]
         else:
             ops.MeasureHomodyne(p[2]) | q[0]
+    return prog, dev, modes
+
+
+def tdm1_oracle(ctx, sf, case, count=True):
+    try:
+        _tdm1_oracle(ctx, sf, case, count)
+    except Exception as e:  # noqa: BLE001
+        ctx.fail(f"tdm-oracle-crash:{type(e).__name__}", f"{case['target']}: {type(e).__name__} {str(e)[:150]}", dict(case))
+
+
+def _tdm1_oracle(ctx, sf, case, count=True):
+    from strawberryfields.program_utils import CircuitError
+    from strawberryfields.parameters import par_evaluate
+    mut, target = case["mut"], case["target"]
+    sqfix = case.get("sqfix", 0.5643)
+    prog, dev, modes = build_tdm1(sf, case)
+    snap0 = prog_snapshot(prog)
     rp = dict(case)
     ctx.oracle_cases += 1
     reset_compilers(sf)
@@ -628,13 +946,17 @@ def tdm1_oracle(ctx, sf, case, count=True):
         reset_compilers(sf)
     if count:
         ctx.count(f"tdm:{target}:accepted", dict(c=case), True, sample=dict(target=target, mut=mut))
+    if prog_snapshot(prog) != snap0:
+        ctx.fail(f"tdm-input-mutated:{target}", f"{target}: compiling changed the source program in place", rp)
+    if [list(map(float, a)) for a in compiled.tdm_params] != [list(map(float, a)) for a in (case["alpha"], case["phi"], case["theta"])]:
+        ctx.fail(f"tdm-parameters-changed:{target}", f"{target} compiler has no parameter update, but the compiled gate arguments differ from the source", rp)
     got = [(type(c.op).__name__, [r.ind for r in c.reg]) for c in compiled.circuit]
     want = [("Sgate", [1]), ("BSgate", [1, 0]), ("Rgate", [1]), ("MeasureHomodyne", [0])]
     if got != want:
         ctx.fail(f"tdm-nonconforming:{target}", f"accepted {target} circuit {got} does not match the layout {want}", rp)
         return
     sq = [float(par_evaluate(x)) for x in compiled.circuit[0].op.p]
-    if abs(sq[0] - 0.5643) > 1e-9 or abs(sq[1]) > 1e-9 or abs(float(par_evaluate(compiled.circuit[1].op.p[1]))) > 1e-9:
+    if abs(sq[0] - sqfix) > 1e-9 or abs(sq[1]) > 1e-9 or abs(float(par_evaluate(compiled.circuit[1].op.p[1]))) > 1e-9:
         ctx.fail(f"tdm-fixed-parameter:{target}", f"accepted {target} circuit has fixed layout values changed: Sgate{sq}", rp)
     for name, vals in (("bs", compiled.tdm_params[0]), ("r", compiled.tdm_params[1]), ("m", compiled.tdm_params[2])):
         bad = [float(v) for v in vals if not hw12.in_ranges(float(v), TDM1_GP[name])]
@@ -643,6 +965,204 @@ def tdm1_oracle(ctx, sf, case, count=True):
             return
     if compiled.timebins > modes["temporal_max"] or mut == "concurrent":
         ctx.fail(f"tdm-mode-limits:{target}", f"accepted {target} program exceeds the device mode limits {modes}", rp)
+
+
+
+# ====================================================================== state kept between compiles, helper functions
+def hard_reset(sf):
+    from strawberryfields.compilers import compiler_db
+    for c in set(compiler_db.values()):
+        c._layout = None
+        c._graph = None
+
+
+def prepare_any(sf, fx, case):
+    if case["kind"] == "x":
+        return build_prog(sf, case["desc"]), sf.Device(case_spec(case)), case["comp"]
+    if case["kind"] == "borealis":
+        return build_borealis(sf, case), borealis_device(sf, fx, case["loop_phases"])[0], None
+    prog, dev, _ = build_tdm1(sf, case)
+    return prog, dev, case["target"]
+
+
+def outcome_any(sf, prog, dev, comp):
+    from strawberryfields.program_utils import CircuitError
+    try:
+        c = prog.compile(device=dev, compiler=comp) if comp else prog.compile(device=dev)
+    except Exception as e:  # noqa: BLE001
+        return ("err", classify_exception(e, CircuitError) or f"{type(e).__name__}: {str(e)[:100]}")
+    key = [(type(x.op).__name__, tuple(r.ind for r in x.reg), str([round(float(v), 9) if isinstance(v, (int, float)) else str(v) for v in x.op.p]))
+           for x in c.circuit]
+    tp = [[round(float(v), 9) for v in a] for a in c.tdm_params] if hasattr(c, "tdm_params") else None
+    return ("ok", key, tp)
+
+
+def history_oracle(ctx, sf, fx):
+    """compilers keep the layout (and its graph) as class attributes between compiles: the outcome of a compile must not
+    depend on what was compiled before, given the documented `reset_circuit()` — and without a reset only through the
+    documented 'Circuit already set' CircuitError"""
+    from strawberryfields.compilers import compiler_db
+    rng, nprng = ctx.rng, ctx.nprng(31)
+    strip = lambda t: (t or "").replace("\n", "")
+    for _ in range(ctx.n(3, 30)):
+        pool = []
+        comp = rng.choice(["Xunitary", "Xcov", "Xstrict"])
+        for _k in range(3):
+            c = gen_x_case(rng, nprng)
+            tries = 0
+            while (c["comp"] != comp or c.get("gp")) and tries < 40:
+                c = gen_x_case(rng, nprng); tries += 1
+            c["complist"] = [c["comp"]]              # default compiler == requested one: the layout is stored in the class
+            pool.append(c)
+        tgt = rng.choice(["TDM", "TD2"])
+        for _k in range(3):
+            c = gen_tdm1_case(rng)
+            c["target"] = tgt
+            c["mut"] = None if _k < 2 else rng.choice([None, "sq-value", "bs-swapped"])
+            c["sqfix"] = [0.5643, 0.3, rng.choice([0.5643, 0.3])][_k]
+            c["alpha"] = [min(a, 6.0) for a in c["alpha"]]
+            c["phi"] = [x if 0 <= x <= PI else 0.5 for x in c["phi"]]
+            pool.append(c)
+        b = gen_borealis_case(rng)
+        b.update(L=10, args=[a[:10] for a in b["args"]], mut=None, loss=False, via_utils=False)
+        pool.append(b)
+        fresh = []
+        for c in pool:
+            hard_reset(sf)
+            prog, dev, cn = prepare_any(sf, fx, c)
+            fresh.append(outcome_any(sf, prog, dev, cn))
+        hard_reset(sf)
+        # scripted pairs first: two programs accepted on a fresh class, same compiler class, different layouts
+        steps = []
+        layouts = [strip(prepare_any(sf, fx, c)[1].layout) for c in pool]
+        names = [(c.get("comp") or c.get("target") or "borealis") for c in pool]
+        pairs = [(i, j) for i in range(len(pool)) for j in range(len(pool)) if i != j and names[i] == names[j]
+                 and layouts[i] != layouts[j] and fresh[i][0] == "ok" and fresh[j][0] == "ok"]
+        for (i, j) in pairs[:2]:
+            steps += [(i, "reset"), (j, "reset"), (i, "reset"), (j, "none"), (j, "reset"), (j, "none")]
+        steps += [(rng.randrange(len(pool)), rng.choice(["reset", "reset", "none"])) for _ in range(8)]
+        hist = []
+        for i, policy in steps:
+            c = pool[i]
+            prog, dev, cn = prepare_any(sf, fx, c)
+            name = cn or dev.default_compiler
+            cls = compiler_db[name]
+            if policy == "reset":
+                cls.reset_circuit()
+            clash = bool(cls._layout) and strip(cls._layout) != strip(dev.layout) and dev.default_compiler == cls.short_name
+            got = outcome_any(sf, prog, dev, cn)
+            hist.append((i, policy))
+            ctx.oracle_cases += 1
+            ctx.count("history:" + policy + (":clash" if clash else ""), None, True)
+            want = ("err", "CircuitError") if clash else fresh[i]
+            if got != want:
+                rp = dict(kind="history", pool=pool, hist=hist)
+                ctx.fail(f"history-dependent:{name}", f"{name}: after the compile history {hist} (reset = reset_circuit() before the compile) the outcome is "
+                         f"{got[0]}{'/' + got[1] if got[0] == 'err' else ''}, on a fresh class it is {want[0]}{'/' + want[1] if want[0] == 'err' else ''}", rp)
+                break
+        hard_reset(sf)
+
+
+def replay_history(ctx, sf, fx, rp):
+    from strawberryfields.compilers import compiler_db
+    pool, hist = rp["pool"], rp["hist"]
+    strip = lambda t: (t or "").replace("\n", "")
+    fresh = {}
+    for i, _ in hist:
+        if i not in fresh:
+            hard_reset(sf)
+            prog, dev, cn = prepare_any(sf, fx, pool[i])
+            fresh[i] = outcome_any(sf, prog, dev, cn)
+    hard_reset(sf)
+    bad = False
+    for i, policy in hist:
+        prog, dev, cn = prepare_any(sf, fx, pool[i])
+        cls = compiler_db[cn or dev.default_compiler]
+        if policy == "reset":
+            cls.reset_circuit()
+        clash = bool(cls._layout) and strip(cls._layout) != strip(dev.layout) and dev.default_compiler == cls.short_name
+        got = outcome_any(sf, prog, dev, cn)
+        bad = got != (("err", "CircuitError") if clash else fresh[i])
+    hard_reset(sf)
+    if bad:
+        ctx.fail("history-dependent", "outcome depends on the compile history", rp)
+
+
+def helpers_oracle(ctx, sf, fx):
+    """public helpers of the anchored files that the compile path or its users rely on: documented behaviour pinned"""
+    from strawberryfields.tdm import utils as tu
+    rng = ctx.rng
+    # get_mode_indices: n[i] = sum(delays[i:]), N = sum(delays) + 1
+    for _ in range(ctx.n(10, 60)):
+        delays = [rng.randint(1, 40) for _ in range(rng.randint(1, 4))]
+        d0 = list(delays)
+        n, N = tu.get_mode_indices(delays)
+        ctx.oracle_cases += 1
+        if list(map(int, n)) != [sum(delays[i:]) for i in range(len(delays) + 1)] or N != sum(delays) + 1 or delays != d0:
+            ctx.fail("tdm-utils:get_mode_indices", f"get_mode_indices({d0}) = {list(n)}, {N}", dict(kind="helpers"))
+    # to_args_list / to_args_dict: the documented order, inverse of each other, inputs untouched
+    dev = borealis_device(sf, fx, [0.1, -0.1, 3.0])[0]
+    for _ in range(ctx.n(6, 40)):
+        L = rng.randint(1, 6)
+        d = {"Sgate": [rng.random() for _ in range(L)],
+             "loops": {i: {"Rgate": [rng.random() for _ in range(L)], "BSgate": [rng.random() for _ in range(L)]} for i in range(3)}}
+        d0 = copy.deepcopy(d)
+        want = [d["Sgate"]] + [d["loops"][i][g] for i in range(3) for g in ("Rgate", "BSgate")]
+        ctx.oracle_cases += 1
+        try:
+            l1, l2 = tu.to_args_list(d, dev), tu.to_args_list(d)
+            back = tu.to_args_dict(l1, dev)
+            ok = l1 == want and l2 == want and back == d0 and d == d0
+        except Exception as e:  # noqa: BLE001
+            ok = False
+        if not ok:
+            ctx.fail("tdm-utils:to_args", "to_args_list / to_args_dict do not give the documented order / are not inverse of each other", dict(kind="helpers"))
+    # Device.create_program: the layout with the given values, first allowed value for the others; validate_target
+    for _ in range(ctx.n(6, 40)):
+        N = rng.choice([2, 3, 4])
+        spec = hw12.x_spec(N, rng.choice([[0, 1], [1, 0]]), [0, [0, hw12.TWO_PI]], compiler=rng.choice([[], ["Xstrict"], ["Xcov"]]))
+        spec0 = copy.deepcopy(spec)
+        dev = sf.Device(spec)
+        names = sorted(spec["gate_parameters"])
+        given = {k: (rng.choice([0, 1]) if k.startswith("squeezing") else dy(rng, 0, 6)) for k in rng.sample(names, rng.randint(0, len(names)))}
+        for i in range(N):          # the unitary compilers need the same final phases on both halves
+            a, b = f"final_phase_{i}", f"final_phase_{i + N}"
+            if a in given or b in given:
+                given[a] = given[b] = given.get(a, given.get(b))
+        g0 = dict(given)
+        ctx.oracle_cases += 1
+        reset_compilers(sf)
+        try:
+            prog = dev.create_program(**given)
+            sk = hw12.circuit_skeleton(prog)
+            full = {k: g0.get(k, spec0["gate_parameters"][k][0]) for k in names}
+            lay = [(c, m, [float(full[p_]) if isinstance(p_, str) else p_ for p_ in ps]) for c, m, ps in hw12.x_layout_skeleton(N)]
+            ok = hw12.wires_view(sk) == hw12.wires_view(lay)
+            why = "program does not have the layout's structure"
+            if ok and dev.default_compiler == "Xstrict":
+                ok = sorted(map(repr, sk)) == sorted(map(repr, [(c, m, [float(x) for x in ps]) for c, m, ps in lay]))
+                why = "program differs from the layout instance"
+            elif ok:
+                _, N1, M1 = ref_state(2 * N, sk).alpha_N_M()
+                _, N2, M2 = ref_state(2 * N, lay).alpha_N_M()
+                f_ = (lambda z: z) if dev.default_compiler == "Xunitary" else np.abs
+                ok = max(float(np.max(np.abs(f_(N1) - f_(N2)))), float(np.max(np.abs(f_(M1) - f_(M2))))) < 1e-6
+                why = "program does not prepare the state of the layout instance"
+        except Exception as e:  # noqa: BLE001
+            ok, why = False, f"{type(e).__name__}: {str(e)[:80]}"
+        finally:
+            reset_compilers(sf)
+        if ok and (spec != spec0 or given != g0 and set(g0) - set(given)):
+            ok, why = False, "inputs changed in place"
+        if not ok:
+            ctx.fail("device:create_program", f"Device.create_program on a {2 * N}-mode X layout: {why}", dict(kind="helpers"))
+        # target of the specification must be the target of the layout
+        bad = dict(spec0, target="other")
+        try:
+            sf.Device(bad)
+            ctx.fail("device:validate_target", "Device accepts a specification whose target differs from the layout's target", dict(kind="helpers"))
+        except ValueError:
+            pass
 
 
 # ====================================================================== correspondence
@@ -901,19 +1421,20 @@ def corr_merge(ctx, sf):
         with prog.context as q:
             for k, (i, r, phi) in enumerate(s2):
                 b = i + N if not (wrong and k == 0) else (i + 1) % N + N
-                ops.S2gate(r, phi) | (q[i], q[b])
+                g = ops.S2gate(r, phi)
+                (g.H if rng.random() < 0.2 else g) | (q[i], q[b])
             ops.MeasureFock() | tuple(q)
         captured = []
 
         def spy(seq, pred, _c=captured):
             A, B, C = orig(seq, pred)
             if not _c and B and all(isinstance(c.op, ops.S2gate) for c in B):
-                _c.append([[c.reg[0].ind, c.reg[1].ind, float(c.op.p[0]), float(c.op.p[1])] for c in B])
+                _c.append([[c.reg[0].ind, c.reg[1].ind, float(c.op.p[0]), float(c.op.p[1]), bool(c.op.dagger)] for c in B])
             return A, B, C
         xu.group_operations = spy
         try:
             out = xu.Xunitary().compile(list(prog.circuit), prog.register)
-            impl = dict(ok=[[c.reg[0].ind, c.reg[1].ind, F(c.op.p[0]), F(c.op.p[1])] for c in out if isinstance(c.op, ops.S2gate)])
+            impl = dict(ok=[[c.reg[0].ind, c.reg[1].ind, F(c.op.p[0]), F(c.op.p[1]), bool(c.op.dagger)] for c in out if isinstance(c.op, ops.S2gate)])
         except CircuitError:
             impl = dict(err="CircuitError")
         except Exception as e:  # noqa: BLE001
@@ -933,7 +1454,7 @@ def corr_merge(ctx, sf):
         keys = [b[0] for b in B]
         ctx.count("corr:s2merge", case, len({k for k in keys if keys.count(k) > 1}) >= 2)
         ctx.tally("corr:s2merge:" + ("ok" if "ok" in impl else impl["err"]))
-        reqs.append(dict(op="hw.s2merge", half=N, B=[[b[0], b[1], F(b[2]), F(b[3])] for b in B], missing=missing))
+        reqs.append(dict(op="hw.s2merge", half=N, B=[[b[0], b[1], F(b[2]), F(b[3]), b[4]] for b in B], missing=missing))
         pend.append(("Xunitary S2 merge", case, impl))
     return reqs, pend
 
@@ -1018,6 +1539,127 @@ def corr_borealis(ctx, sf, fx):
         fr = lambda x: [Fraction(x).limit_denominator(1000).numerator, Fraction(x).limit_denominator(1000).denominator]
         reqs.append(dict(op="hw.update", len=L, loops=[[fr(offs[i]), DELAYS[i], user[i], [fr(x) for x in phis[i]]] for i in range(3)]))
         pend.append(("Borealis.update_params", case, impl))
+    return reqs, pend
+
+
+def corr_xchecks(ctx, sf):
+    """numpy.allclose model, thewalrus expand model, and the validation verdicts of Xunitary / Xcov on the symplectic
+    matrix GaussianUnitary hands them (spied), incl. inputs a few percent on either side of the tolerances"""
+    import strawberryfields.ops as ops
+    import strawberryfields.compilers.xunitary as xu
+    import strawberryfields.compilers.xcov as xc
+    from strawberryfields.compilers.gaussian_unitary import GaussianUnitary
+    from strawberryfields.decompositions import takagi
+    from strawberryfields.program_utils import CircuitError
+    from thewalrus.symplectic import expand
+    from thewalrus.quantum import Amat
+    rng = ctx.rng
+    nprng = ctx.nprng(77)
+    reqs, pend = [], []
+    # ---- allclose on complex scalars
+    pairs, impl = [], []
+    for _ in range(ctx.n(300, 3000)):
+        b = complex(rng.choice([0.0, rng.uniform(-1, 1)]), rng.choice([0.0, rng.uniform(-1, 1)])) * rng.choice([1, 1e-3, 1e-6])
+        thr = 1e-8 + 1e-5 * abs(b)
+        f = rng.choice([0.0, 0.5, 0.97, 1.03, 2.0, 50.0])
+        a = b + thr * f * np.exp(1j * rng.uniform(0, 2 * PI))
+        pairs.append([[F(a.real), F(a.imag)], [F(b.real), F(b.imag)]])
+        impl.append(bool(np.allclose(a, b)))
+        ctx.count("corr:allclose", None, True)
+    reqs.append(dict(op="hw.close", pairs=pairs))
+    pend.append(("numpy.allclose (complex scalars)", dict(n=len(pairs)), impl))
+    # ---- expand
+    for _ in range(ctx.n(30, 200)):
+        N = rng.randint(1, 5)
+        k = rng.randint(1, N)
+        modes = rng.sample(range(N), k)
+        S = nprng.integers(-9, 9, size=(2 * k, 2 * k)).astype(float)
+        out = expand(S, modes, N)
+        case = dict(N=N, modes=modes)
+        ctx.count("corr:expand", case, k >= 2 and modes != sorted(modes))
+        reqs.append(dict(op="hw.expand", S=[[F(x) for x in r] for r in S], modes=modes, N=N))
+        pend.append(("thewalrus expand", case, [[F(x) for x in r] for r in out]))
+    # ---- Xunitary / Xcov verdicts
+    msgs = {"do not correspond to an interferometer": "not-interferometer", "cannot mix": "mix", "must be identical": "not-identical"}
+
+    def spy_class(store):
+        class Spy(GaussianUnitary):
+            def compile(self, seq, registers):
+                out = super().compile(seq, registers)
+                store.append(out)
+                return out
+        return Spy
+
+    for k in range(ctx.n(70, 600)):
+        comp = "Xunitary" if k % 2 == 0 else "Xcov"
+        N = rng.choice([1, 2, 2, 3, 3, 4])
+        n = 2 * N
+        variant = rng.choice(["sym", "sym", "eps-after", "eps-before", "mix-eps", "mix", "squeeze", "partial", "none", "badpair"])
+        prog = sf.Program(n)
+        eps = rng.choice([5e-6, 9e-6, 1.2e-5, 2e-5, 1e-4, 1e-3])
+        th = rng.choice([1e-9, 4e-9, 2.5e-8, 1e-6, 0.3])
+        with prog.context as q:
+            for i in range(N):
+                b = i + N if not (variant == "badpair" and i == 0 and N >= 2) else 1 + N
+                ops.S2gate(rng.choice([0.5, 1.0, 0.25])) | (q[i], q[b])
+            if variant != "none":
+                if variant == "partial" and N >= 2:
+                    ops.Rgate(0.5) | q[0]; ops.Rgate(0.5) | q[N]
+                else:
+                    U = hw12.rand_unitary(nprng, N, rng.choice(["haar", "real", "phased_perm"]))
+                    D = np.diag(np.exp(1j * eps * np.ones(N)))
+                    U2 = D @ U if variant == "eps-after" else (U @ D if variant == "eps-before" else U)
+                    ops.Interferometer(U) | tuple(q[:N])
+                    ops.Interferometer(U2) | tuple(q[N:])
+                if variant in ("mix-eps", "mix"):
+                    ops.BSgate(th if variant == "mix-eps" else 0.4, 0.0) | (q[0], q[N])
+                if variant == "squeeze":
+                    ops.Sgate(0.3) | q[0]
+            ops.MeasureFock() | tuple(q)
+        mod = xu if comp == "Xunitary" else xc
+        store = []
+        origGU = mod.GaussianUnitary
+        mod.GaussianUnitary = spy_class(store)
+        cls = xu.Xunitary if comp == "Xunitary" else xc.Xcov
+        try:
+            seq = cls().decompose(prog.circuit)
+            out = cls().compile(seq, prog.register)
+            verdict = "ok"
+        except CircuitError as e:
+            verdict = next((v for m, v in msgs.items() if m in str(e)), None)
+            out = None
+        finally:
+            mod.GaussianUnitary = origGU
+        if verdict is None or not store:
+            ctx.tally("corr:xcheck:skipped")
+            continue
+        gu = store[0]
+        if gu and not isinstance(gu[0].op, ops.MeasureFock):
+            S = np.array(gu[0].op.p[0], dtype=float)
+            used = [r.ind for r in gu[0].reg]
+        else:
+            S, used = np.identity(2 * n), list(range(n))
+        case = dict(comp=comp, N=N, variant=variant, eps=eps, th=th)
+        ctx.count(f"corr:xcheck:{comp}", case, variant not in ("sym", "none"))
+        ctx.tally(f"corr:xcheck:{comp}:{verdict}")
+        if comp == "Xunitary":
+            reqs.append(dict(op="hw.xunitaryCheck", half=N, S=[[F(x) for x in r] for r in S], used=used))
+            pend.append(("Xunitary validation verdict", case, verdict))
+        else:
+            S2 = expand(S, used, n) if len(used) != n else S
+            A = Amat((sf.hbar / 2) * S2 @ S2.T, hbar=sf.hbar)
+            reqs.append(dict(op="hw.xcovCheck", half=N, A=[[[F(z.real), F(z.imag)] for z in r] for r in A]))
+            pend.append(("Xcov validation verdict", case, verdict))
+            if verdict == "ok" and out is not None:
+                # which Takagi value squeezes which pair
+                sqs, _ = takagi(A[:N, N:n])
+                got = [(c.reg[0].ind, c.reg[1].ind, float(c.op.p[0])) for c in out if isinstance(c.op, ops.S2gate)]
+                impl = []
+                for a, b, r in got:
+                    cands = [j for j in range(N) if abs(np.tanh(r) - sqs[j]) < 1e-9]
+                    impl.append([a, b, a if a in cands else (cands[0] if cands else -1)])
+                reqs.append(dict(op="hw.xcovSqueezers", half=N))
+                pend.append(("Xcov squeezer bookkeeping", case, impl))
     return reqs, pend
 
 
@@ -1109,7 +1751,7 @@ def run(ctx, sf):
         else:
             tdm1_oracle(ctx, sf, case)
     # ---- correspondence
-    for fn in (corr_ranges, corr_validate, corr_layout_cache, corr_assert_modes, corr_template, corr_merge):
+    for fn in (corr_ranges, corr_validate, corr_layout_cache, corr_assert_modes, corr_template, corr_merge, corr_xchecks):
         reqs, pend = fn(ctx, sf)
         compare(ctx, reqs, pend)
     reqs, pend = corr_borealis(ctx, sf, fx)
@@ -1123,6 +1765,8 @@ def run(ctx, sf):
         borealis_oracle(ctx, sf, fx, gen_borealis_case(rng))
     for _ in range(ctx.n(40, 400)):
         tdm1_oracle(ctx, sf, gen_tdm1_case(rng))
+    history_oracle(ctx, sf, fx)
+    helpers_oracle(ctx, sf, fx)
 
 
 def search(ctx, sf):
@@ -1138,4 +1782,8 @@ def replay(ctx, rp):
         borealis_oracle(ctx, sf, fixture_ns(sf), rp, count=False)
     elif rp["kind"] == "tdm1":
         tdm1_oracle(ctx, sf, rp, count=False)
+    elif rp["kind"] == "history":
+        replay_history(ctx, sf, fixture_ns(sf), rp)
+    elif rp["kind"] == "helpers":
+        helpers_oracle(ctx, sf, fixture_ns(sf))
     return len(ctx.failures) > n0
